@@ -1152,20 +1152,38 @@ class SpecMon(Monitor):
 
     def at_loop_head(self, m, st):
         """Bytes consumed after the reference rejected are fed to the framing detector here, when
-        the implementation's own branches have refined them, without forking."""
+        the implementation's own branches have refined them.  A few of them may be split further
+        (CR / LF / other); beyond that budget the detector gives up ('lost') instead of forking."""
         if not self.det_pending:
             return
-        pend = self.det_pending
-        self.det_pending = ()
+        sim = self.clone()
+        pend = sim.det_pending
+        sim.det_pending = ()
         n = len(pend)
+        budget = 4 - self.flags.get("det_forks", 0)
         for i, c in enumerate(pend):
-            if self.det[0] in ("fired", "lost"):
+            if sim.det[0] in ("fired", "lost"):
                 break
             t = st.token_at(n - 1 - i)
             if t is None:
-                self.det = ("lost",)
+                sim.det = ("lost",)
                 break
-            self.detect(m, st, c, ("B", ((t, 1),), 0), replay=True, nofork=True)
+            try:
+                sim.detect(m, st, c, ("B", ((t, 1),), 0), replay=True, nofork=(budget <= 0))
+            except Fork as f:
+                # nothing of self has been changed: the refined states redo this step
+                choices = []
+                for lab, ref in f.choices:
+                    def mk(ref_):
+                        def g(s_):
+                            r = ref_(s_)
+                            if s_.mon is not None:
+                                s_.mon.flags["det_forks"] = s_.mon.flags.get("det_forks", 0) + 1
+                            return r
+                        return g
+                    choices.append((lab, mk(ref)))
+                raise Fork(choices, f.why)
+        self.det, self.det_at, self.det_pending = sim.det, sim.det_at, ()
 
     # ---- verdict at return ------------------------------------------------------------------------
     def finish(self, m, st):
